@@ -96,6 +96,14 @@ def hwDecode (busword aw paging : Nat) (banks : List Bank) (off : Nat) : List (N
     (List.range 4).flatMap fun l => decodeFrom paging 8 ((off / 4 * 4 + l) % 2 ^ aw) 0 banks
   else decodeFrom paging busword (bridgeAdr busword aw off) 0 banks
 
+/-- A load on an `axi-lite`/`axi` SoC whose bus is `ratio` times wider than the 32-bit CSR bridge: the AXI-Lite
+    down-converter has no read strobes and reads all `ratio` parts of the aligned bus word (stores skip unstrobed
+    parts, so a store is `ratio = 1`). -/
+def hwDecodeWide (ratio busword aw paging : Nat) (banks : List Bank) (off : Nat) : List (Nat × Nat) :=
+  if ratio ≤ 1 then hwDecode busword aw paging banks off
+  else (List.range ratio).flatMap fun l =>
+    hwDecode busword aw paging banks (off / (4 * ratio) * (4 * ratio) + 4 * l)
+
 /-- `SoCCSRHandler`: `n_locs = alignment//8 * 2**address_width // paging`. -/
 def nLocs (alignment aw paging : Nat) : Nat := alignment / 8 * 2 ^ aw / paging
 
